@@ -90,6 +90,8 @@ def run(ctx):
                   "velocities supplied by the user reach the first step unmodified",
                   f"user-supplied velocities are modified before step 0 by `{short(offenders[0], 80) if offenders else ''}` "
                   f"(documentation: supplied velocities are used directly)")
+    n_al = check_phase_aliases(ctx, "R1")
+    ctx.ok("R1", MD, f"{n_al} call sites receive the molecule's own phase-space tensors (not copies); none of the callees changes that argument in place", nontrivial=False)
     # initialize(): between entry and the first force evaluation nothing else writes velocities except initialize_velocity
     ini = md.func("Molecular_Dynamics_Basic.initialize")
     for st in ast.walk(ini):
@@ -418,7 +420,7 @@ def _r6_dof_and_forwarding(ctx, repo):
     from ..assembly import com_setup_verdicts
     _cv = com_setup_verdicts(repo)
     _md = repo.mod(MD)
-    ctx.check(_cv["dof"][0], "R6", _md, _md.func("XL_BOMD.set_dof"), "set_dof", "n_dof of the three engines (interpreted)", _cv["dof"][1], _cv["dof"][1])
+    ctx.check(_cv["dof"][0], "R6", _md, _md.func("XL_BOMD.set_dof") if _md.has_func("XL_BOMD.set_dof") else _md.func("Molecular_Dynamics_Basic.set_dof"), "set_dof", "n_dof of the three engines (interpreted)", _cv["dof"][1], _cv["dof"][1])
     md = repo.mod(MD)
     nad = repo.mod(NAD)
     # (a) every set_dof computes n_dof from the number of real atoms of each molecule
@@ -507,3 +509,108 @@ def _r6_dof_and_forwarding(ctx, repo):
                                   f"(e.g. remove_com=None: no centre-of-mass removal and no reduction of the degrees of freedom for this engine)")
     if k < 10:
         raise AnalysisError(f"only {k} forwarded parameters inventoried")
+
+
+# ------------------------------------------------------------------------------------------------------------------------------------------------
+# phase-space tensors reach in-place-mutating callees only as copies (shared with C08-R4)
+# ------------------------------------------------------------------------------------------------------------------------------------------------
+INPLACE_METHODS = {"add_", "sub_", "mul_", "div_", "copy_", "zero_", "fill_", "clamp_", "masked_fill_", "index_add_", "addcmul_", "neg_", "normal_", "uniform_"}
+ALIAS_METHODS = {"detach", "view", "reshape", "squeeze", "unsqueeze", "contiguous", "to", "float", "double", "requires_grad_", "expand", "transpose", "flatten"}
+
+
+def _mutated_params(repo, cache={}):
+    """{(rel, qualname): {parameter index: witness statement}} -- parameters a function changes in place (augmented assignment to the bare name, item store, in-place tensor
+    method, or handing the parameter on to a callee that does), two levels deep"""
+    key = id(repo)
+    if key in cache:
+        return cache[key]
+    fns = {}
+    by_name = {}
+    for m in repo.modules("seqm"):
+        for q, f in m.functions.items():
+            fns[(m.rel, q)] = (m, f)
+            by_name.setdefault(q.split(".")[-1], []).append((m.rel, q))
+    out = {k: {} for k in fns}
+
+    def rebinds_before(f, name, stmt):
+        # `p = f(p)` before the mutation makes p a fresh local from there on (conservatively: any plain rebinding anywhere in the function before the witness line)
+        return any(isinstance(a, ast.Assign) and any(isinstance(t, ast.Name) and t.id == name for t in a.targets) and a.lineno < stmt.lineno
+                   and not any(isinstance(p_, (ast.If,)) for p_ in ()) for a in ast.walk(f))
+    for (rel, q), (m, f) in fns.items():
+        params = [a.arg for a in f.args.args]
+        for st in ast.walk(f):
+            nm = None
+            if isinstance(st, ast.AugAssign) and isinstance(st.target, ast.Name):
+                nm = st.target.id
+            elif isinstance(st, ast.AugAssign) and isinstance(st.target, ast.Subscript) and isinstance(st.target.value, ast.Name):
+                nm = st.target.value.id
+            elif isinstance(st, ast.Assign) and any(isinstance(t, ast.Subscript) and isinstance(t.value, ast.Name) for t in st.targets):
+                nm = next(t.value.id for t in st.targets if isinstance(t, ast.Subscript) and isinstance(t.value, ast.Name))
+            elif isinstance(st, ast.Call) and isinstance(st.func, ast.Attribute) and st.func.attr in INPLACE_METHODS and isinstance(st.func.value, ast.Name):
+                nm = st.func.value.id
+            if nm in params:
+                # a parameter that is unconditionally rebound before the witness is a local copy from there on; a conditional rebinding (as in an `if damp:` arm) is not
+                unconditional = [a for a in f.body if isinstance(a, ast.Assign) and any(isinstance(t, ast.Name) and t.id == nm for t in a.targets) and a.lineno < st.lineno]
+                if not unconditional:
+                    out[(rel, q)].setdefault(params.index(nm), st)
+    for _ in range(2):
+        for (rel, q), (m, f) in fns.items():
+            params = [a.arg for a in f.args.args]
+            for c in calls_in(f):
+                cn = callee_attr(c) or (c.func.id if isinstance(c.func, ast.Name) else None)
+                for tgt in by_name.get(cn or "", []):
+                    tparams = [a.arg for a in fns[tgt][1].args.args]
+                    off = 1 if (tparams and tparams[0] == "self" and isinstance(c.func, ast.Attribute)) else 0
+                    for i, a in enumerate(c.args):
+                        if isinstance(a, ast.Name) and a.id in params and (i + off) in out[tgt]:
+                            out[(rel, q)].setdefault(params.index(a.id), c)
+    cache[key] = (out, fns, by_name)
+    return cache[key]
+
+
+def _is_alias_of_phase(e, aliases):
+    """is expression e the tensor molecule.<velocities|coordinates|acc> itself (possibly detached / viewed), or a local known to be such an alias"""
+    while isinstance(e, ast.Call) and isinstance(e.func, ast.Attribute) and e.func.attr in ALIAS_METHODS:
+        e = e.func.value
+    if isinstance(e, ast.Attribute) and e.attr == "data":
+        e = e.value
+    if isinstance(e, ast.Name):
+        return aliases.get(e.id)
+    if isinstance(e, ast.Attribute) and e.attr in ("velocities", "coordinates", "acc") and isinstance(e.value, ast.Name) and e.value.id in ("molecule", "mol"):
+        return e.attr
+    return None
+
+
+def check_phase_aliases(ctx, rid, allowed=()):
+    """every argument that is molecule.velocities / coordinates / acc itself (or a detached / reshaped view of it) is handed only to callees that do not change that parameter
+    in place, unless the callee is an inventoried mutator: a helper that works on `x.detach()` works on the molecule's own storage"""
+    repo = ctx.repo
+    out, fns, by_name = _mutated_params(repo)
+    n = 0
+    for (rel, q), (m, f) in fns.items():
+        if rel not in (MD, NAD) and not rel.startswith("seqm/dynamics/"):
+            continue
+        aliases = {}
+        for st in ast.walk(f):
+            if isinstance(st, ast.Assign) and len(st.targets) == 1 and isinstance(st.targets[0], ast.Name):
+                a = _is_alias_of_phase(st.value, aliases)
+                if a:
+                    aliases[st.targets[0].id] = a
+        for c in calls_in(f):
+            cn = callee_attr(c) or (c.func.id if isinstance(c.func, ast.Name) else None)
+            if not cn or cn in allowed:
+                continue
+            for tgt in by_name.get(cn, []):
+                tparams = [a.arg for a in fns[tgt][1].args.args]
+                off = 1 if (tparams and tparams[0] == "self" and isinstance(c.func, ast.Attribute)) else 0
+                for i, a in enumerate(c.args):
+                    what = _is_alias_of_phase(a, aliases)
+                    if not what:
+                        continue
+                    n += 1
+                    wit = out[tgt].get(i + off)
+                    ctx.check(wit is None, rid, m, c, q, c, f"{q}: `{norm(a)}` (the molecule's own {what}) goes to {tgt[1]}, which does not change that argument in place",
+                              f"{q}: `{short(c, 60)}` hands `{norm(a)}` -- the molecule's own {what} tensor, not a copy -- to {tgt[1]}, which changes that argument in place "
+                              f"(`{short(wit, 50) if wit is not None else ''}`): the {what} the next step starts from are silently altered (user-supplied velocities are no longer the "
+                              f"starting velocities; a fresh draw no longer realises the requested temperature exactly)")
+    return n
